@@ -57,6 +57,17 @@ add(
     "DESIGN.md §4 C02",
 )
 
+add(
+    "C03", "exploration",
+    "Hypothesis-generated trees (rule-straddling names x node kinds x Git layer x flags); reference covered-file model + git check-ignore as oracle; four observation channels",
+    "About 2400 generated trees per quick run (names on both sides of every exclusion rule at every depth, empty files, binaries, symlinks to files / "
+    "directories / nowhere / outside, LICENSES, .reuse, .hg, .sl, subprojects, half of them Git repositories with generated ignore rules, tracked and "
+    "force-added files, manual submodules, all four flag combinations) are examined by lint --json, spdx, lint-file on every path and annotate -r on a "
+    "copy; each observed file set must equal the model's COVERED set exactly (no covered file skipped, no excluded file examined).",
+    "Trusts vlib/ref/covered.py and git check-ignore; nested LICENSES/.reuse/subprojects directories and ignored submodules are UNSPECIFIED; only Git is installed (no hg/jj/pijul).",
+    "DESIGN.md §4 C03",
+)
+
 NOT_BUILT = "check not built yet in this revision of /verif (planned in DESIGN.md §4; property-based testing applies)"
 
 
